@@ -101,16 +101,23 @@ func cmdVerify(args []string) {
 			ok := true
 			var worst oblResult
 			tot := 0.0
+			anySat := false
 			for _, r := range byName[n] {
-				want := "unsat"
-				if r.o.Cover {
-					want = "sat"
-				}
 				tot += r.r.Seconds
-				if r.r.Status != want {
+				if r.o.Cover {
+					worst = r
+					if r.r.Status == "sat" {
+						anySat = true
+					}
+					continue
+				}
+				if r.r.Status != "unsat" {
 					ok = false
 					worst = r
 				}
+			}
+			if len(byName[n]) > 0 && byName[n][0].o.Cover {
+				ok = anySat
 			}
 			if ok {
 				if *verbose {
